@@ -194,6 +194,10 @@ extern pthread_once_t	vbi_init_once;
 extern void		vbi_init(void);
 
 extern void		vbi_transp_colormap(vbi_decoder *vbi, vbi_rgba *d, vbi_rgba *s, int entries);
+/* vbi_chsw_reset(): the new station transmits a CNI missing in our table. The caller
+   keeps the received CNI in vbi->network and sends the NETWORK event itself. */
+#define VBI_NUID_UNLISTED ((vbi_nuid) -1)
+
 extern void             vbi_chsw_reset(vbi_decoder *vbi, vbi_nuid nuid);
 
 #endif /* VBI_H */
